@@ -13,14 +13,14 @@
 use crate::{
     error::{WriterError, WriterResult},
     model::{
-        TryFromNode,
+        Namespace, TryFromNode,
         doc::RustDocument,
         node::RustNode,
         soap::{binding::SoapBinding, message::SoapMessage, port::SoapPort, service::SoapService},
     },
 };
 use roxmltree::Node;
-use std::{collections::HashMap, fmt::Display, io, sync::atomic::AtomicBool};
+use std::{collections::HashMap, fmt::Display, io, rc::Rc, sync::atomic::AtomicBool};
 
 pub const WELL_KNOWN_NAMESPACES: &[&str] = &[
     "http://www.w3.org/XML/1998/namespace",
@@ -132,6 +132,15 @@ impl XmlReader {
     }
 
     fn read_xml_internal(file: &FileContent, file_name: &str, files: &Files) -> WriterResult<RustDocument> {
+        Self::read_xml_with_namespaces(file, file_name, files, &[])
+    }
+
+    fn read_xml_with_namespaces(
+        file: &FileContent,
+        file_name: &str,
+        files: &Files,
+        known_namespaces: &[Rc<Namespace>],
+    ) -> WriterResult<RustDocument> {
         // mark the file before its imports are followed, so that a file that (transitively) imports
         // itself is not read again
         if file.processed.swap(true, std::sync::atomic::Ordering::SeqCst) {
@@ -150,7 +159,7 @@ impl XmlReader {
         }
         let doc = roxmltree::Document::parse(xml)
             .map_err(|e| WriterError::new(format!("Unable to parse file {file_name}: {e}")))?;
-        let mut rust_doc = RustDocument::init(&doc);
+        let mut rust_doc = RustDocument::init_with_namespaces(&doc, known_namespaces);
 
         for child in doc.root().children() {
             Self::read(child, files, &mut rust_doc)?;
@@ -240,7 +249,8 @@ impl XmlReader {
     fn read_xsd<'n>(node: Node<'n, 'n>, files: &Files, doc: &mut RustDocument) -> WriterResult<()> {
         for child in node.children() {
             if child.tag_name().name() == "import" {
-                doc.extend(Self::process_import(child, files)?);
+                let imported = Self::process_import(child, files, &doc.namespaces)?;
+                doc.extend(imported);
                 continue;
             }
 
@@ -256,7 +266,7 @@ impl XmlReader {
         Ok(())
     }
 
-    fn process_import(node: Node, files: &Files) -> WriterResult<RustDocument> {
+    fn process_import(node: Node, files: &Files, known_namespaces: &[Rc<Namespace>]) -> WriterResult<RustDocument> {
         #[cfg(feature = "verif")]
         if node.attribute("namespace").is_none() {
             crate::verif::import(None, node.attribute("schemaLocation"), "no_namespace");
@@ -292,7 +302,7 @@ impl XmlReader {
 
         #[cfg(feature = "verif")]
         crate::verif::import(Some(namespace), Some(schema_location), "recurse");
-        let rust_doc = Self::read_xml_internal(file, schema_location, files)?;
+        let rust_doc = Self::read_xml_with_namespaces(file, schema_location, files, known_namespaces)?;
         Ok(rust_doc)
     }
 }
